@@ -277,7 +277,12 @@ pub fn cases(thorough: bool) -> Vec<Case> {
         .into_iter()
         .filter(|c| c.transform != Transform::Cut)
         .enumerate()
-        .filter(|(i, c)| thorough || (c.u.is_none() && i % 2 == 0) || i % 24 == 0)
+        .filter(|(i, c)| {
+            // thinning by a mixing hash of the index (a plain modulus aliases with the
+            // innermost loops of the grammar and would drop whole dimensions)
+            let h = (*i as u64).wrapping_mul(0x9E37_79B9_7F4A_7C15) >> 33;
+            thorough || (c.u.is_none() && h % 2 == 0) || h % 24 == 0
+        })
         .map(|(_, c)| c)
         .collect()
 }
